@@ -1,4 +1,5 @@
 import OH.Props.C01
+import OH.Props.C01E
 #print axioms OH.Props.C01.C01_spec_outside
 #print axioms OH.Props.C01.C01_model_outside
 #print axioms OH.Props.C01.C01_bound_irrelevant
@@ -22,3 +23,6 @@ import OH.Props.C01
 #print axioms OH.Props.C01.C01_schedule_refines_spec_inyear
 #print axioms OH.Props.C01.C01_schedule_refines_spec_plain
 #print axioms OH.Props.C01.C04_schedule_total
+#print axioms OH.Props.C01E.C01_every_parsed_expression_nodated
+#print axioms OH.Props.C01E.C01_every_parsed_expression_plain
+#print axioms OH.Props.C01E.C01_every_parsed_expression_window
